@@ -259,12 +259,12 @@ Definition w_ctx : send_ctx := mkSendCtx false false None [].
 
 Theorem literal_refuted :
   (* D1: a method call that carries a REPLY_SERIAL field is refused by a default <allow> rule *)
-  check_can_send [w_allow_send] false None [] (w_msg 1 (Some [97]) 5) <> spec_can_send dev_none [w_allow_send] w_ctx (w_msg 1 (Some [97]) 5) /\
+  check_can_send [w_allow_send] false None [] (w_msg 1 (Some [97; 46; 98]) 5) <> spec_can_send dev_none [w_allow_send] w_ctx (w_msg 1 (Some [97; 46; 98]) 5) /\
   (* D2: an unrequested method return passes <allow ... eavesdrop="true"/> *)
-  check_can_send [w_allow_send_eav] false None [] (w_msg 2 (Some [97]) 5) <> spec_can_send dev_none [w_allow_send_eav] w_ctx (w_msg 2 (Some [97]) 5) /\
+  check_can_send [w_allow_send_eav] false None [] (w_msg 2 (Some [97; 46; 98]) 5) <> spec_can_send dev_none [w_allow_send_eav] w_ctx (w_msg 2 (Some [97; 46; 98]) 5) /\
   (* D3: <deny ... eavesdrop="true"/> on the send side also denies when nobody eavesdrops *)
-  check_can_send [w_allow_send; w_deny_send_eav] false None [] (w_msg 1 (Some [97]) 0) <>
-  spec_can_send dev_none [w_allow_send; w_deny_send_eav] w_ctx (w_msg 1 (Some [97]) 0).
+  check_can_send [w_allow_send; w_deny_send_eav] false None [] (w_msg 1 (Some [97; 46; 98]) 0) <>
+  spec_can_send dev_none [w_allow_send; w_deny_send_eav] w_ctx (w_msg 1 (Some [97; 46; 98]) 0).
 Proof. repeat split; vm_compute; discriminate. Qed.
 
 (* ------------------------------------------------------------------ context order *)
